@@ -8,6 +8,7 @@ import (
 	"fmt"
 	"github.com/trustbloc/sidetree-go/pkg/hashing"
 	"hash/fnv"
+	"math"
 	"strings"
 	"sync"
 
@@ -222,7 +223,8 @@ func anchorOrigin(ao int) interface{} {
 	case ao >= 100:
 		// (member names whose UTF-16 order differs from their UTF-8 / code point order)
 		// ... and a number that Go and ECMAScript write differently (2.5e-07 / 2.5e-7)
-		return map[string]interface{}{"o": ao - 100, "\ufb01": 1, "\U0001f600": 2.5e-7}
+		// ... a minus zero, and control characters whose escapes contain hexadecimal letters
+		return map[string]interface{}{"o": ao - 100, "\ufb01": 1, "\U0001f600": 2.5e-7, "z": math.Copysign(0, -1), "c\x0b\x1f": "\x0e\x1a\x1b\x7f\x01"}
 	default:
 		return fmt.Sprintf("origin-%d", ao)
 	}
@@ -415,6 +417,15 @@ func (c *Concretizer) buildDelta(o *ROp) map[string]interface{} {
 			delta["patches"] = []interface{}{map[string]interface{}{"publicKeys": []interface{}{c.docKeyJSON(1)}}}
 		case "upd_mh":
 			delta["updateCommitment"] = o.notAMultihash(algCode(o.H))
+		case "expanding":
+			// numbers whose canonical form is longer than their spelling in the request: the canonical delta is larger
+			// than the request that carries it
+			var nums []interface{}
+			for i := 0; i < 80; i++ {
+				nums = append(nums, 1e20) // (spelled 1e20 in the request: see sizeLimitsReplay)
+			}
+
+			delta["patches"] = append(c.patchesFor(o.Delta), jsonPatch(map[string]interface{}{"op": "add", "path": "/big", "value": nums}))
 		case "toolarge":
 			delta["patches"] = append(c.patchesFor(o.Delta),
 				jsonPatch(map[string]interface{}{"op": "add", "path": "/big", "value": strings.Repeat("x", 1800)}))
